@@ -192,7 +192,7 @@ def repo_facts(log=None):
             except OSError:
                 pass
             return out
-        prune_fact_bases(keep=int(os.environ.get("VERIF_KEEP_FACT_BASES", "24")), but=key)
+        prune_fact_bases(keep=int(os.environ.get("VERIF_KEEP_FACT_BASES", "40")), but=key)
         shutil.rmtree(out, ignore_errors=True)
         os.makedirs(out)
         tdir = target_dir()
